@@ -928,6 +928,16 @@ func (o *ovsdbClient) monitor(ctx context.Context, cookie MonitorCookie, reconne
 		o.rpcMutex.RLock()
 		defer o.rpcMutex.RUnlock()
 	}
+	return o.monitorLocked(ctx, cookie, reconnecting, monitor)
+}
+
+// monitorLocked must only be called with a lock on monitorsMutex and with
+// the rpcMutex held. It calls itself to fall back to an older monitor method,
+// which must not take the rpcMutex read lock a second time: a recursive read
+// lock deadlocks with a writer (Disconnect) arriving in between.
+//
+//gocyclo:ignore
+func (o *ovsdbClient) monitorLocked(ctx context.Context, cookie MonitorCookie, reconnecting bool, monitor *Monitor) error {
 	if o.rpcClient == nil {
 		return ErrNotConnected
 	}
@@ -1039,7 +1049,7 @@ func (o *ovsdbClient) monitor(ctx context.Context, cookie MonitorCookie, reconne
 			if monitor.Method == ovsdb.ConditionalMonitorSinceRPC {
 				o.logger.V(3).Error(err, "method monitor_cond_since not supported, falling back to monitor_cond")
 				monitor.Method = ovsdb.ConditionalMonitorRPC
-				err = o.monitor(ctx, cookie, reconnecting, monitor)
+				err = o.monitorLocked(ctx, cookie, reconnecting, monitor)
 				if err != nil {
 					stopDeferring()
 				}
@@ -1048,7 +1058,7 @@ func (o *ovsdbClient) monitor(ctx context.Context, cookie MonitorCookie, reconne
 			if monitor.Method == ovsdb.ConditionalMonitorRPC {
 				o.logger.V(3).Error(err, "method monitor_cond not supported, falling back to monitor")
 				monitor.Method = ovsdb.MonitorRPC
-				err = o.monitor(ctx, cookie, reconnecting, monitor)
+				err = o.monitorLocked(ctx, cookie, reconnecting, monitor)
 				if err != nil {
 					stopDeferring()
 				}
